@@ -49,6 +49,11 @@ DECODE_SCRIPT = [
 
 
 def run(ctx):
+    _run_main(ctx)
+    _shared_r4(ctx)
+
+
+def _run_main(ctx):
     with ctx.rule('R19.1', 'decoding table: host/port defaults, vhost, credentials, query parameters and their errors', floor=20) as r:
         fnp = U + 'populate_host_and_port'
         rows = P.table(ctx, fnp, ['url'])
@@ -159,3 +164,9 @@ def run(ctx):
             addrs = [e for e in evs if e.kind == 'call' and e.callee == 'url::Url::socket_addrs']
             r.check('%s:connects-to-url-address' % fnp.split('::')[-1], len(conn) == 1 and len(addrs) == 1 and S.show(addrs[0].args[0]) == 'url' and 'iter_item(' in S.show(conn[0].args[0]), ctx.site(fnp),
                     built=[S.show(e.term)[:200] for e in conn + addrs])
+
+
+def _shared_r4(ctx):
+    """Rules of other properties that are necessary conditions of this one too (found by seeding round 4)."""
+    with ctx.rule('R19.5', "the heartbeat the URL spells out is the one negotiated with: plain minimum with the server's, 0 staying 0 (shared with C15)", floor=1) as r:
+        A.include(ctx, r, 'c15', 'R15.1', pick=('heartbeat', 'ok-row'))
